@@ -22,14 +22,18 @@ func OnceFunc(f func()) func() {
 	return func() { o.Do(f) }
 }
 
-// Map and Pool are not modelled operation by operation: they are provided as
-// the real types (their internal synchronisation is invisible to the
-// scheduler, which is sound for code that uses them as a black box but gives
-// no scheduling points inside them).
-type (
-	Map  = sync.Map
-	Pool = sync.Pool
-)
+// Map is not modelled operation by operation: it is provided as the real type (its internal
+// synchronisation is invisible to the scheduler, which is sound for code that uses it as a black
+// box but gives no scheduling points inside it).
+type Map = sync.Map
+
+// Pool is a deterministic stand-in for sync.Pool (the real one keeps objects across the
+// executions of one process and drops them at the garbage collector's whim, so a program that
+// uses one — typically through a package-level variable — would not replay): a LIFO stack that
+// never drops anything and starts empty in every execution.  Get and Put are scheduling points.
+// "Whatever was put last comes back first" is the behaviour in which a pooled object that was
+// not reset properly shows.
+type Pool = core.Pool
 
 // OnceValue mirrors sync.OnceValue.
 func OnceValue[T any](f func() T) func() T {
